@@ -12,7 +12,7 @@ PASS_CLEAN=$(go test -vet=off -count=1 -tags "$TAGS" -run . -timeout 300s ./$DD 
 git apply out/mut${ID}.diff || { echo "seed $ID: diff does not apply"; exit 1; }
 FAIL_MUT=$(go test -vet=off -count=1 -tags "$TAGS" -run . -timeout 300s ./$DD 2>&1 | tail -1 | cut -c1-60)
 rm -f $DD/demo_seed_test.go
-SUITE=$(go test -vet=off -count=1 $(go list ./... | grep -v /out$) 2>&1 | grep -c "^FAIL")
+SUITE=$(go test -vet=off -count=1 $(go list -e ./... 2>/dev/null | grep -v /out$) 2>&1 | grep -c "^FAIL")
 echo "seed $ID: clean=[$PASS_CLEAN] mutated=[$FAIL_MUT] suite_failures=$SUITE"
 for c in $CHECKS; do
   R=$(cd $VC && VERIF_REPO=$WT timeout 1800 python3 run/check.py $c --tier quick 2>&1 | grep -E "^(VIOLATION|OK|KNOWN)" | head -2 | cut -c1-200 | tr '\n' ' ')
